@@ -12,6 +12,8 @@ for illegal arguments the constructor must raise (any exception) - returning an 
 import importlib
 import itertools
 
+import os
+
 from harness.runner import Result, library_frame
 
 ID = "C02"
@@ -330,10 +332,19 @@ def run_case(case):
             kw = case["kw"]
             sa = kw["short_address"]
             sa = sa[1] if isinstance(sa, list) else sa
+            if case.get("map_preset"):
+                # the map is preset through the constructor, our pair first among several
+                inum = kw["instance_number"]
+                preset = {(sa, inum): case["maptype"]}
+                for k_, (s_, i_) in enumerate(case["map_preset"]):
+                    if (s_, i_) != (sa, inum):
+                        preset[(s_, i_)] = (case["maptype"] + 1 + k_) % 32
+                dmap = DeviceInstanceTypeMapper(initial=preset)
             # a bus-wide map is kept up to date over time: the pair may have been recorded with another type before
-            for prev in case.get("map_history", []):
-                dmap.add_type(short_address=sa, instance_number=kw["instance_number"], instance_type=prev)
-            dmap.add_type(short_address=sa, instance_number=kw["instance_number"], instance_type=case["maptype"])
+            if not case.get("map_preset"):
+                for prev in case.get("map_history", []):
+                    dmap.add_type(short_address=sa, instance_number=kw["instance_number"], instance_type=prev)
+                dmap.add_type(short_address=sa, instance_number=kw["instance_number"], instance_type=case["maptype"])
         dec = command.from_frame(frame.ForwardFrame(len(f), f.as_integer), devicetype=obj.devicetype, dev_inst_map=dmap)
     except Exception as e:  # noqa
         return [("C02:decode-raised:%s:%s" % (name, type(e).__name__), "%s: %r" % (where, e))]
@@ -736,7 +747,10 @@ def _shard(arg):
         first = prev = None
         for case in legal_cases(path, fam, cls, quick, seed):
             n += 1
-            if "maptype" in case and n % 2:
+            if "maptype" in case and n % 3 == 0:
+                case["map_preset"] = [[(n * 7) % 64, (n * 3) % 32], [63, 31], [0, 0]][: 1 + n % 3]
+                res.label("legal:map-preset-through-constructor")
+            if "maptype" in case and n % 2 and not case.get("map_preset"):
                 # every other device/instance event is decoded under a map whose entry was updated
                 case["map_history"] = [(case["maptype"] + 1 + n % 5) % 32, 0][: 1 + n % 2]
                 res.label("legal:map-with-history")
@@ -763,7 +777,53 @@ def _shard(arg):
     return res
 
 
+def optimized_illegal_cases(k=0, nshards=1):
+    """Runs under `python -O` (see __main__): every illegal-argument case again.  Validation written with `assert`
+    disappears there; a production interpreter started with -O / PYTHONOPTIMIZE must reject the same arguments."""
+    out = []
+    n = 0
+    for i, (path, fam, cls) in enumerate(classes()):
+        if i % nshards != k:
+            continue
+        for case in illegal_cases(path, fam, cls):
+            n += 1
+            for sig, msg in run_case(case):
+                out.append([sig + ":python-O", case, msg])
+    address = _load()[2]
+    for name, top in (ADDRESS_CTORS if k == 0 else []):
+        for tag, v in list(bad_ints(top)) + [("none", ["raw", "none"]), ("float", ["raw", "float"]), ("str", ["raw", "str"])]:
+            case = {"fam": "address", "cls": name, "arg": v, "illegal": tag}
+            n += 1
+            for sig, msg in address_ctor_case(case):
+                out.append([sig + ":python-O", case, msg])
+    return {"n": n, "violations": out[:50]}
+
+
+def _optimized_shard(k):
+    import json as _json
+    import subprocess
+    import sys as _sys
+    from harness.runner import REPO, VERIF
+    res = Result()
+    env = dict(os.environ, PYTHONHASHSEED="0", VERIF_REPO=REPO, PYTHONPATH=VERIF)
+    r = subprocess.run([_sys.executable, "-O", "-B", os.path.abspath(__file__), "--optimized", str(k)], env=env,
+                       capture_output=True, text=True, cwd=VERIF)
+    if r.returncode != 0:
+        if "/dali/" in r.stderr:
+            res.violation("C02:optimized-interpreter-fails", {"kind": "python -O"}, r.stderr[-800:])
+            return res
+        raise RuntimeError("python -O subprocess failed: " + r.stderr[-1500:])
+    d = _json.loads(r.stdout)
+    res.count(d["n"])
+    res.nontrivial(n=d["n"])
+    res.label("illegal:under-python-O", d["n"])
+    for sig, case, msg in d["violations"]:
+        res.violation(sig, dict(case, python_O=True), msg + " [interpreter started with -O]")
+    return res
+
+
 def run(ctx):
+    ctx.pmap(_optimized_shard, list(range(16)))
     allc = classes()
     # heavy classes (instance commands, two-param specials, light events) get their own shard
     paths = [p for p, fam, c in allc]
@@ -776,3 +836,13 @@ def run(ctx):
     shards.append("addresses")
     ctx.pmap(_shard, shards)
     ctx.result.extra["classes"] = len(paths)
+
+
+if __name__ == "__main__":
+    import sys as _sys
+    if "--optimized" in _sys.argv:
+        import json as _json
+        _sys.path.insert(0, os.environ.get("VERIF_REPO", "/repo"))
+        _sys.path.insert(1, os.path.dirname(os.path.dirname(os.path.abspath(__file__))))
+        assert not __debug__
+        print(_json.dumps(optimized_illegal_cases(int(_sys.argv[_sys.argv.index("--optimized") + 1]), 16), default=repr))
